@@ -31,7 +31,7 @@ def main():
             level_note=t['level_note'],
             technique=t['technique'],
         ))
-    na = [dict(property_id=k, reason=v) for k, v in sorted(NA.items())]
+    na = [dict(property_id=k, reason=v) for k, v in sorted(NA.items()) if k not in obligations.PROPS]
     for pid, reason in sorted(getattr(obligations, 'NOT_YET', {}).items()):
         if pid not in obligations.PROPS:
             na.append(dict(property_id=pid, reason=reason))
